@@ -797,6 +797,54 @@ def s_val_storedneg(e, x):
     return y
 
 
+def s_val_storedneg_store(e, x):
+    # the use on the arm where validation FAILED is a memory store (an instruction inside the guarded block, whose
+    # edge carries the branch condition), not a register copy that ends in a phi after the join
+    y = e.out("P"); e.f.newbox(y)
+    b = e.tmp("bool"); n = e.tmp("bool"); e.f.validate(b, x); e.f.not_(n, b)
+    with e.f.if_var(n):
+        e.f.fstore(y, "s", x)
+    return y
+
+
+def s_val_then_store(e, x):
+    # the mirror image: the store sits on the arm where validation SUCCEEDED (no report demanded)
+    y = e.out("P"); e.f.newbox(y)
+    b = e.tmp("bool"); e.f.validate(b, x)
+    with e.f.if_var(b):
+        e.f.fstore(y, "s", x)
+    return y
+
+
+def s_val_else_store(e, x):
+    y = e.out("P"); e.f.newbox(y)
+    b = e.tmp("bool"); t = e.tmp("string"); e.f.validate(b, x)
+    with e.f.if_var(b) as br:
+        e.f.lit(t, "ok")
+        with br.else_():
+            e.f.fstore(y, "s", x)
+    return y
+
+
+def s_val_storedneg_guard(e, x):
+    # the function goes on ONLY when the stored negated verdict says "invalid": everything after the guard (the sink
+    # call included) is reached on the branch where validation failed and must be reported
+    b = e.tmp("bool"); n = e.tmp("bool"); t = e.tmp("string"); e.f.validate(b, x); e.f.not_(n, b)
+    with e.f.if_var(n) as br:
+        e.f.lit(t, "invalid")
+        with br.else_():
+            e.f.ret_zero()
+    return x
+
+
+def s_val_storedneg_guard_ok(e, x):
+    # the mirror image: leave when invalid, go on when validated (no report demanded)
+    b = e.tmp("bool"); n = e.tmp("bool"); e.f.validate(b, x); e.f.not_(n, b)
+    with e.f.if_var(n):
+        e.f.ret_zero()
+    return x
+
+
 def s_val_storedneg_else(e, x):
     # ... and on the arm where it SUCCEEDED (validated: no report demanded; keeps the polarity honest both ways)
     y = e.out("S"); b = e.tmp("bool"); n = e.tmp("bool"); t = e.tmp("string"); e.f.validate(b, x); e.f.not_(n, b)
@@ -1014,6 +1062,11 @@ STEPS = {
     "val_then": ("S", "S", "role", s_val_then),
     "val_storedneg": ("S", "S", "role", s_val_storedneg),
     "val_storedneg_else": ("S", "S", "role", s_val_storedneg_else),
+    "val_storedneg_store": ("S", "P", "role", s_val_storedneg_store),
+    "val_storedneg_guard": ("S", "S", "role", s_val_storedneg_guard),
+    "val_storedneg_guard_ok": ("S", "S", "role", s_val_storedneg_guard_ok),
+    "val_then_store": ("S", "P", "role", s_val_then_store),
+    "val_else_store": ("S", "P", "role", s_val_else_store),
     "val_else": ("S", "S", "role", s_val_else),
     "val_negelse": ("S", "S", "role", s_val_negelse),
     "val_guard": ("S", "S", "role", s_val_guard),
